@@ -1,0 +1,11 @@
+//go:build !verif
+
+package pool
+
+// Hooks for the runtime verification build (build tag "verif").
+// Without the tag they are compiled out.
+
+const verifOn = false
+
+func verifGet(size int) Buffer   { return nil }
+func verifRelease(b Buffer) bool { return false }
